@@ -120,3 +120,25 @@ def register(R):
         params=dict(bucket=ExtT('str'), key=ExtT('str'), extra_args=OptT(EXTRA), subscribers=SUBS),
         checks=delete_checks, raises={'Exception': lambda c: {}}, top_level=True,
     )
+
+
+    def copy_checks(c):
+        out, sub = common(c, 'ALLOWED_COPY_ARGS', 'CopySubmissionTask', False)
+        out.update(passes_map(c, sub))
+        if len(sub) == 1:
+            h = c.new.obj(sub[0].extra['env']['call_args'])
+            sc = h.fields.get('source_client')
+            user = c.a_source_client
+            out['copy_source_recorded'] = (B(h.fields.get('copy_source') is c.a_copy_source), ['C01', 'C15'])
+            # the size of the source is discovered with the source client the user gave, else with the manager's own
+            if isinstance(user, Opt):
+                out['source_client_is_the_users_or_the_managers_own'] = (z3.If(user.is_none, B(sc is c.oldf('_client')), B(sc is user.val or sc is user)), ['C15', 'C01'])
+        return out
+
+    R.contract(
+        f'{TM}.copy', props=['C15', 'C18', 'C08', 'C01'],
+        params=dict(copy_source=ExtT('copy_source'), bucket=ExtT('str'), key=ExtT('str'), extra_args=OptT(EXTRA), subscribers=SUBS,
+                    source_client=OptT(ExtT('client'))),
+        checks=copy_checks, raises={'Exception': lambda c: {}}, top_level=True,
+    )
+    R.external('copy_source', get=ExtSpec(returns=ExtT('str'), pure=True))
